@@ -623,6 +623,12 @@ func pow2(n int64) Term {
 }
 
 func (vc *VC) binop(st *State, op token.Token, l, r Term, lt types.Type, at ast.Node) Term {
+	// untyped nil compared with a slice
+	if l.Sort == SSlc && r.Sort == SInt && r.S == "0" {
+		r = zeroOfSort(SSlc)
+	} else if r.Sort == SSlc && l.Sort == SInt && l.S == "0" {
+		l = zeroOfSort(SSlc)
+	}
 	if l.Sort != r.Sort {
 		// mixed (e.g. shifts with different int types are both Int); otherwise abstract
 		if !(l.Sort == SInt && r.Sort == SInt) {
